@@ -11,13 +11,14 @@ META = {
                   "read_file / read_sectored_file as one state machine over abstract contents: single-unit vs sectored, the per-unit "
                   "store-raw rule (CodecDefs), the flag word, block entries, FIX_KEY key derivation with the MpqCrypto reference hash, "
                   "hash-table insertion and lookup by linear probing under four spellings of real byte-string names, absent names sharing a "
-                  "home slot, the reader's branch / shortcut / per-sector test, the codec limits and Err->zeros. TLC checks exhaustively "
+                  "home slot, the V3/V4 lookup path as actions (HetProbe, BetVerify, ClassicFallback, Deliver) with lookup3 / one-at-a-time BET "
+                  "hashes, HET/BET table compression, the reader's branch / shortcut / per-sector test, the codec limits and Err->zeros. TLC checks exhaustively "
                   "(sector size 4, 3 files, 8 lengths x 3 compressibility classes x 6 methods x 3 encryption modes x crc; plus sector size "
                   "4096 for the limit region; plus the FlagFix=TRUE variant) that the reader re-derives the writer's layout, keys agree, every "
                   "spelling finds its block, absent names are not found, and every read is exact outside NAMED deviations (negative control: "
                   "TLC must find the F-C01-a counterexample on the as-is model). TLC then enumerates archive configurations "
                   "(version x shift x method x enc x crc x attrs x listfile x tablecomp); the driver builds and reads real archives (31 files, "
-                  "4 spellings each, 3 absent names, listing); TLC validates every recorded event against the model.",
+                  "4 spellings each, 3 absent names, listing, HET/BET/classic probe observations, re-open behind a non-zero archive offset); TLC validates every recorded event against the model.",
     "level_note": "Codec bytes and digests are observed (token equality), not modelled. HET/BET bit-packing is not modelled (lookups of "
                   "builder-made V3/V4 archives are observed through find_file/read_file only). Key derivation is checked on the model "
                   "and by the round trip itself, not per trace event. ADPCM (lossy) methods: once a lossy stage was applied only result "
